@@ -118,6 +118,10 @@ class Compiler:
             hits = [s for s in sc.sources if lname in s.cols]
             if hits:
                 if len(hits) > 1 and lname not in sc.using:
+                    if allow_alias and first and lname in sc.aliases:
+                        # GROUP BY / HAVING / ORDER BY: an ambiguous FROM name falls back to the select item
+                        # of that name (MySQL resolves it there, with warning 1052)
+                        return sc.aliases[lname]
                     raise OperationalError(1052, f"Column '{name}' in field list is ambiguous")
                 s = hits[0]
                 return self._col_closure(up, s.index, lname, s.cols[lname][1])
